@@ -3,6 +3,7 @@
    one local update (shared with C06), the identity embedding of the two-node case.  The
    bound on a new bond is the truncation rule of C10 (Trunc/Select.v).  Statements only. *)
 From Coq Require Import List Arith ZArith QArith.
+From PTN Require Import TTN.Store TTN.Canon TTN.Inv TTN.CanonTree Evo.TDVPStore Evo.TDVPStoreEffects Evo.TDVPTwoSite Evo.TDVPStoreProofs.   (* store level, see the end *)
 From PTN Require Import Tree.RTree Tree.Nav Tree.UpdatePath Tree.CachePath Tree.Enum Tree.EnumProofs
      Sched.TDVP Sched.TDVPProofs Sched.TDVPMore Sched.TDVPFresh Sched.TDVPBounded Sched.TDVPUniversal Sched.TDVPFreshU Trunc.Select Trunc.SelectProofs.
 Import ListNotations.
@@ -114,3 +115,61 @@ Example C07_example : option_map calls (trace2s C07_ex) =
   fresh_check2s C07_ex = true /\ NoDup (ids C07_ex).
 Proof. repeat split; try (vm_compute; reflexivity). repeat constructor; simpl; intuition discriminate. Qed.
 Print Assumptions C07_example.
+
+(* ==== Store level (Layer W): the two-site step as a program over the symbolic store ============================ *)
+(* Evo/TDVPStore.v: TwoSite a b = legs_before_combination(a, b); contract_nodes(a, b, "TwoSite_a_contr_b"); the
+   contracted tensor is read and replaced by the evolved one; split_node_svd with the recorded specifications back into
+   a and b (kind 4 = truncated SVD, the bond dimension `bd` is data and is handed over by the harness, which reads it
+   off the real run at the kernel boundary); centre := b.  SiteBack = the site update.  The harness compares the
+   structure after the constructor and after every step with SecondOrderTwoSiteTDVP (c07w.py). *)
+
+(* one two-site update on two neighbouring nodes: succeeds, keeps the store invariant and the tree (identifiers,
+   parent pointers, children sets), the root, touches no third node (record and tensor), the temporary node is gone *)
+Theorem C07_two_site_update_on_store : forall new s a b bd na nb,
+  Inv.wf s -> aget a (nodes s) = Some na -> aget b (nodes s) = Some nb -> In b (neighbouring_nodes na) ->
+  aget new (nodes s) = None ->
+  exists s', two_site_update s a b new bd = Some s' /\ Inv.wf s' /\
+    same_tree (nodes s) (nodes s') /\ root s' = root s /\
+    aget new (nodes s') = None /\ aget new (tensors s') = None /\
+    (forall k, k <> a -> k <> b -> aget k (nodes s') = aget k (nodes s) /\ aget k (tensors s') = aget k (tensors s)).
+Proof.
+  intros new s a b bd na nb W Ea Eb Hin Hn. destruct (two_site_update_some new s a b bd na nb W Ea Eb Hin Hn) as [s' H].
+  exists s'. split; [exact H|]. exact (proj2 (two_site_update_same_tree new s a b bd s' na W Ea Hn H)).
+Qed.
+Print Assumptions C07_two_site_update_on_store.
+
+(* the whole step, for EVERY well-formed tree store (>= 2 nodes, any child order compatible with the schedule's tree)
+   whose recorded centre is update_path[0], given at least as many bond dimensions as the trace has two-site updates:
+   the step succeeds, consumes exactly one bond dimension per two-site update, keeps the store invariant, the node
+   identifiers, parent pointers, children sets and the root, and ends with the recorded centre on update_path[0] *)
+Theorem C07_two_site_step_on_store : forall lk tw tmp t s u rest bds,
+  NoDup (ids t) -> 2 <= size t -> tmatch t (nodes s) -> wfb s = true -> update_path t = Some (u :: rest) ->
+  amem tmp (nodes s) = false -> (forall a b, amem (tw a b) (nodes s) = false) ->
+  (forall tr, trace2s t = Some tr -> count_two tr <= length bds) ->
+  exists cs' bds', tdvp2s_step_t lk tw tmp t (s, Some u) bds = Some (cs', bds') /\
+    wfb (fst cs') = true /\ same_tree (nodes s) (nodes (fst cs')) /\ root (fst cs') = root s /\
+    snd cs' = Some u /\ tmatch t (nodes (fst cs')) /\
+    (forall tr, trace2s t = Some tr -> length bds' + count_two tr = length bds).
+Proof. exact tdvp2s_step_t_ok. Qed.
+Print Assumptions C07_two_site_step_on_store.
+
+(* non-vacuity: the tree of C07_example as a store (bond dimensions 2), canonicalised at the first node of the sweep;
+   the step with six bond dimensions (one per two-site update) runs, ends at that node, and the extended isometry attribute (QR or SVD first
+   factor with the bond toward the centre) holds *)
+Definition C07_store_ex : option cstore :=
+  let s0 := fst (Store.run empty_store [AddRoot 0 [2; 2; 2]; AddChild 1 [2; 2; 2] 0 0 0; AddChild 2 [2; 2] 0 1 1; AddChild 3 [2; 2] 0 0 1]) in
+  match first_of C07_ex with Some u => canonical_form (s0, None) u Keep 99 | None => None end.
+
+Example C07_store_example :
+  match C07_store_ex, first_of C07_ex with
+  | Some (s, c), Some u =>
+      c = Some u /\ wfb s = true /\ tree_of s = Some C07_ex /\ amem 99 (nodes s) = false /\
+      option_map count_two (trace2s C07_ex) = Some 6 /\
+      match tdvp2s_step_t (fun a b => 100 + 10 * a + b) (fun a b => 200 + 10 * a + b) 99 C07_ex (s, c) [2; 2; 2; 2; 2; 2] with
+      | Some (c1, unused) => snd c1 = Some u /\ unused = [] /\ iso_check2 c1 = true /\ wfb (fst c1) = true
+      | None => False
+      end
+  | _, _ => False
+  end.
+Proof. vm_compute. repeat split; reflexivity. Qed.
+Print Assumptions C07_store_example.
